@@ -214,8 +214,27 @@ func (m *Module) AssignModuleID(wasm []byte, listeners []experimental.FunctionLi
 	// Write the flag of ensureTermination to the checksum.
 	m.ID[0] = boolToByte(withEnsureTermination)
 	h.Write(m.ID[:1])
+	// Whether the memory can be 65536 pages long depends on the run-time memory limit besides the binary,
+	// and the compiler emits different code for such a memory.
+	if m.memoryCanReach4GiB() {
+		m.ID[0] = 1
+		h.Write(m.ID[:1])
+	}
 	// Get checksum by passing the slice underlying m.ID.
 	h.Sum(m.ID[:0])
+}
+
+// memoryCanReach4GiB returns true if the memory defined or imported by this module can be MemoryLimitPages long.
+func (m *Module) memoryCanReach4GiB() bool {
+	if mem := m.MemorySection; mem != nil {
+		return mem.Min >= MemoryLimitPages || mem.Max >= MemoryLimitPages
+	}
+	for i := range m.ImportSection {
+		if imp := &m.ImportSection[i]; imp.Type == ExternTypeMemory && imp.DescMem != nil {
+			return imp.DescMem.Min >= MemoryLimitPages || imp.DescMem.Max >= MemoryLimitPages
+		}
+	}
+	return false
 }
 
 func boolToByte(b bool) (ret byte) {
